@@ -28,11 +28,42 @@ OUT = common.LEAN_DIR / "PtGen" / "Children.lean"
 # instrumentation
 # --------------------------------------------------------------------------
 
+class BudgetExceeded(Exception):
+    """a traversal made more calls than its (linear) budget allows: aborted early"""
+
+
+@contextlib.contextmanager
+def eq_counter(budget: int | None = None):
+    """count, AT CLASS LEVEL, every `EqualityComparer.rec` call and every comparer created while
+    active — also by comparers created afresh inside `Array.__eq__`, tuple `==`, dict lookups …
+    (a counting subclass would not see those).  Aborts with BudgetExceeded beyond `budget` calls."""
+    import pytato.equality as peq
+    cls = peq.EqualityComparer
+    orig_rec, orig_init = cls.rec, cls.__init__
+    st = {"rec": 0, "comparers": 0}
+
+    def rec(self, e1, e2):
+        st["rec"] += 1
+        if budget is not None and st["rec"] > budget:
+            raise BudgetExceeded(f"EqualityComparer.rec called more than {budget} times")
+        return orig_rec(self, e1, e2)
+
+    def init(self, *a, **kw):
+        st["comparers"] += 1
+        orig_init(self, *a, **kw)
+    cls.rec, cls.__init__ = rec, init
+    try:
+        yield st
+    finally:
+        cls.rec, cls.__init__ = orig_rec, orig_init
+
+
 class CallLog:
     """(caller, callee) pairs of `rec` calls; shared by all instances created
     while it is active (cloned mappers, nested equality comparers)"""
 
-    def __init__(self, stub_below: Any = None):
+    def __init__(self, stub_below: Any = None, budget: int | None = None):
+        self.budget = budget
         self.stack: list[Any] = []
         self.pairs: list[tuple[int | None, int]] = []
         self.keep: list[Any] = []       # keep callee objects alive (ids stay unique)
@@ -66,6 +97,9 @@ class CallLog:
         self.keep.append(expr)
         self.stack.append(expr)
         self.ncalls += 1
+        if self.budget is not None and self.ncalls > self.budget:
+            self.stack.pop()
+            raise BudgetExceeded(f"more than {self.budget} rec() calls")
 
     def exit(self):
         self.stack.pop()
